@@ -133,7 +133,8 @@ fn styled_tokens(text: &str, inst: &Inst, set: &[Rewrite]) -> (Vec<String>, Vec<
             Inst::I(IOp::Addi, rd, rs, 0) if text.starts_with("mv ") => format!("addi {}, {}, 0", rn(*rd), rn(*rs)),
             Inst::Jal(0, l) if text.starts_with("j ") => format!("jal zero, {l}"),
             Inst::Jal(1, l) if text.starts_with("jal ") && text.split_whitespace().count() == 2 => format!("jal ra, {l}"),
-            Inst::Jalr(0, 1, 0) if text == "ret" => "jalr zero, ra, 0".to_string(),
+            // the memory-operand spelling, so that "omit the zero offset" composes with it
+            Inst::Jalr(0, 1, 0) if text == "ret" => "jalr zero, 0(ra)".to_string(),
             _ => spelling,
         };
     }
